@@ -11,7 +11,7 @@ open SpatialId
 
 /-- numeric literals of `shape.GetExtendedSpatialIdsOnLine` -/
 theorem facts_shape_GetExtendedSpatialIdsOnLine :
-    Gen.funcFacts.lookup "shape.GetExtendedSpatialIdsOnLine" = some ["f:4467902934002620053", "f:4482622658704346170", "f:4491629857959087162", "f:4557750909289998844", "f:4569063951553953530", "i:1", "i:31", "i:34"] := by decide
+    Gen.funcFacts.lookup "shape.GetExtendedSpatialIdsOnLine" = some ["f:4467902934002620053", "f:4482622658704346170", "f:4491629857959087162", "f:4557750909289998844", "f:4569063951553953530", "i:31", "i:34"] := by decide
 
 /-- numeric literals of `shape.middleSpatialIds` -/
 theorem facts_shape_middleSpatialIds :
